@@ -1,6 +1,9 @@
 //! vmverif — correspondence harness for the Lean model of vm-memory.
 //! usage: vmverif <world> <seed> <n> <outdir> [opts…]   |   vmverif replay <world> <opsfile> <outdir>
 mod atomicw;
+mod atomw;
+mod buildw;
+mod lifew;
 mod bitmap;
 mod copyw;
 mod guest;
@@ -69,6 +72,9 @@ fn main() {
             let mode = opts.iter().find(|o| ["mixed", "edit", "exhaustive"].contains(o)).copied().unwrap_or("mixed");
             guest::run(&mut rec, &mut rng, n, mode);
         }
+        "build" => buildw::run(&mut rec, &mut rng, n),
+        "life" => lifew::run(&mut rec, &mut rng, n),
+        "amem" => atomw::run(&mut rec, &mut rng, n, if opts.contains(&"stress") { 3 } else { 0 }),
         "copy" => copyw::run(&mut rec, &mut rng, n, if opts.contains(&"tear") { 2 } else { 0 }),
         "atomic" => atomicw::run(&mut rec, &mut rng, n, opts.contains(&"thorough")),
         "bitmap" => bitmap::run(&mut rec, &mut rng, n, opts.contains(&"exhaustive")),
@@ -90,6 +96,9 @@ enum SlAny {
 }
 
 thread_local! {
+    static BW: std::cell::RefCell<buildw::BuildWorld> = std::cell::RefCell::new(buildw::BuildWorld::new());
+    static LW: std::cell::RefCell<lifew::LifeWorld> = std::cell::RefCell::new(lifew::LifeWorld::new());
+    static AM: std::cell::RefCell<atomw::AmemWorld> = std::cell::RefCell::new(atomw::AmemWorld::new());
     static CP: std::cell::RefCell<copyw::CopyWorld> = std::cell::RefCell::new(copyw::CopyWorld::new());
     static AT: std::cell::RefCell<atomicw::AtomicWorld> = std::cell::RefCell::new(atomicw::AtomicWorld::new());
     static GM: std::cell::RefCell<guest::GmWorld> = std::cell::RefCell::new(guest::GmWorld::new());
@@ -102,6 +111,12 @@ fn exec_line(rec: &mut Rec, world: &str, line: &str, chk: bool) -> String {
         return "ok".into();
     }
     match world {
+        "build" => BW.with(|w| {
+            let l = line.rsplit_once(" kernel=").map(|x| x.0).unwrap_or(line);
+            w.borrow_mut().exec(rec, l)
+        }),
+        "life" => LW.with(|w| w.borrow_mut().exec(rec, line)),
+        "amem" => AM.with(|w| w.borrow_mut().exec(rec, line)),
         "copy" => CP.with(|w| w.borrow_mut().exec(rec, line)),
         "atomic" => AT.with(|w| w.borrow_mut().exec(rec, line)),
         "gm" => GM.with(|w| w.borrow_mut().exec(rec, line)),
